@@ -196,6 +196,8 @@ def cli_roundtrip(v: Verdict):
     from pyimpspec import parse_data
     opts = {"points": 4, "sweeps": 1, "order": "desc", "sep": ",", "dec": ".", "case": "lower"}
     hdr = [{"role": r, "alias": 1, "marker": "", "suffix": ""} for r in ("frequency", "real", "imaginary")]
+    os.environ["XDG_CONFIG_HOME"] = os.path.join(_workdir(), "xdg")      # built-in CLI defaults, not the user's config file
+    os.makedirs(os.environ["XDG_CONFIG_HOME"], exist_ok=True)
     src = os.path.join(_workdir(), "cli-src.csv")
     write_table(src, hdr, opts)
     from pyimpspec.cli import main as cli_main
